@@ -3,7 +3,14 @@ package fzf
 import (
 	"os"
 	"strings"
+	"sync"
 	"unsafe"
+)
+
+// Temporary files that have been created and not yet removed
+var (
+	tempFiles      = map[string]struct{}{}
+	tempFilesMutex sync.Mutex
 )
 
 func WriteTemporaryFile(data []string, printSep string) string {
@@ -15,15 +22,34 @@ func WriteTemporaryFile(data []string, printSep string) string {
 	}
 	defer f.Close()
 
+	tempFilesMutex.Lock()
+	tempFiles[f.Name()] = struct{}{}
+	tempFilesMutex.Unlock()
+
 	f.WriteString(strings.Join(data, printSep))
 	f.WriteString(printSep)
 	return f.Name()
 }
 
 func removeFiles(files []string) {
+	tempFilesMutex.Lock()
+	defer tempFilesMutex.Unlock()
 	for _, filename := range files {
 		os.Remove(filename)
+		delete(tempFiles, filename)
 	}
+}
+
+// removeTemporaryFiles removes the temporary files that are still around,
+// e.g. those of a reload command that was running, or had not been started
+// yet, when fzf was told to exit
+func removeTemporaryFiles() {
+	tempFilesMutex.Lock()
+	defer tempFilesMutex.Unlock()
+	for filename := range tempFiles {
+		os.Remove(filename)
+	}
+	tempFiles = map[string]struct{}{}
 }
 
 func stringBytes(data string) []byte {
